@@ -234,9 +234,16 @@ func (r *Run) branch(c *Term) bool {
 	r.qFeas++
 	if r.checkWith(c) == Sat {
 		r.log = append(r.log, Dec{K: DBranch, V: 1})
-		alt := append(append([]Dec(nil), r.log[:i]...), Dec{K: DBranch, V: 0, Unverified: true})
-		r.spawn = append(r.spawn, alt)
-		r.assume(c)
+		r.qFeas++
+		if r.checkWith(r.tt.Not(c)) == Sat {
+			alt := append(append([]Dec(nil), r.log[:i]...), Dec{K: DBranch, V: 0})
+			r.spawn = append(r.spawn, alt)
+			r.assume(c)
+		} else {
+			// pi implies c
+			r.pc = append(r.pc, c)
+			r.note(c, true)
+		}
 		return true
 	}
 	// pi implies !c: no need to tell the solver
@@ -276,20 +283,33 @@ func (r *Run) concretize(t *Term, tag string) int64 {
 		return sext(t.c, w)
 	}
 	i := len(r.log)
-	var excl []int64
 	if i < len(r.prefix) {
 		d := r.prefix[i]
 		if d.K != DConcretize {
 			r.abort(OEngineError, fmt.Sprintf("nondeterministic replay: decision %d kind %v, expected concretize (%s)", i, d.K, tag))
 		}
-		if !d.Fresh {
-			r.log = append(r.log, d)
-			r.assume(r.tt.Eq(t, r.tt.Const(t.sort, uint64(d.V))))
-			return d.V
+		if d.Fresh {
+			// last element of the prefix: its siblings have not been looked for yet
+			r.nextValue(t, i, append(append([]int64(nil), d.Excl...), d.V), tag)
+			d.Fresh = false
+			d.Excl = nil
 		}
-		excl = d.Excl
+		r.log = append(r.log, d)
+		r.assume(r.tt.Eq(t, r.tt.Const(t.sort, uint64(d.V))))
+		return d.V
 	}
-	// ask the solver for a value not in excl
+	v, ok := r.findValue(t, nil)
+	if !ok {
+		r.abort(OInfeasible, "")
+	}
+	r.nextValue(t, i, []int64{v}, tag)
+	r.log = append(r.log, Dec{K: DConcretize, V: v, Tag: tag})
+	r.assume(r.tt.Eq(t, r.tt.Const(t.sort, uint64(v))))
+	return v
+}
+
+// findValue asks the solver for a value of t (under pi) outside excl.
+func (r *Run) findValue(t *Term, excl []int64) (int64, bool) {
 	cond := r.tt.True
 	for _, e := range excl {
 		cond = r.tt.And(cond, r.tt.Not(r.tt.Eq(t, r.tt.Const(t.sort, uint64(e)))))
@@ -308,23 +328,27 @@ func (r *Run) concretize(t *Term, tag string) int64 {
 	}
 	if res == Unsat {
 		s.Pop()
-		r.abort(OInfeasible, "")
+		return 0, false
 	}
 	vals, err := s.GetValues([]string{tref})
 	s.Pop()
 	if err != nil {
 		r.abort(OInconclusive, "get-value: "+err.Error())
 	}
-	v := sext(vals[0], w)
-	r.log = append(r.log, Dec{K: DConcretize, V: v, Tag: tag})
-	nex := append(append([]int64(nil), excl...), v)
-	if len(nex) > r.eng.cfg.MaxConcretize {
+	return sext(vals[0], t.sort.W), true
+}
+
+// nextValue spawns the sibling path for one more feasible value of t, if there is one.
+func (r *Run) nextValue(t *Term, i int, excl []int64, tag string) {
+	if len(excl) > r.eng.cfg.MaxConcretize {
 		r.abort(OUnwind, fmt.Sprintf("more than %d feasible values while concretising %s", r.eng.cfg.MaxConcretize, tag))
 	}
-	alt := append(append([]Dec(nil), r.log[:i]...), Dec{K: DConcretize, Fresh: true, Excl: nex, Tag: tag})
+	v, ok := r.findValue(t, excl)
+	if !ok {
+		return
+	}
+	alt := append(append([]Dec(nil), r.log[:i]...), Dec{K: DConcretize, V: v, Fresh: true, Excl: excl, Tag: tag})
 	r.spawn = append(r.spawn, alt)
-	r.assume(r.tt.Eq(t, r.tt.Const(t.sort, uint64(v))))
-	return v
 }
 
 // ---- verification conditions ----
